@@ -226,9 +226,56 @@ static void one_roundtrip(vh_rng* r, int n, int use_show_look) {
   vh_count("file_sink_runs");
 }
 
+
+/* A sequence written with a separator BETWEEN its items, read back record by record with one scan per item whose
+** format ends in the separator: the last record meets the end of the input where the others meet the separator.
+** Like C's own fscanf("%li;"), the scan converts the item and does not mind the missing literal. */
+static void record_wise(vh_rng* r) {
+  int n = 2 + (int)vh_below(r, 5);
+  int64_t v[8]; char sep = ";,:|/"[vh_below(r, 5)];
+  int is_float = vh_chance(r, 30);
+  double fv[8];
+  var wargs = new(Tuple);
+  char wfmt[80], rfmt[16]; size_t o = 0;
+  for (int i = 0; i < n; i++) {
+    v[i] = vh_chance(r, 50) ? (int64_t)vh_next(r) : vh_range(r, -1000, 1000);
+    fv[i] = (double)vh_range(r, -100000, 100000) / 8.0;
+    push(wargs, is_float ? (var)new(Float, $F(fv[i])) : (var)new(Int, $I(v[i])));
+    o += (size_t)snprintf(wfmt + o, sizeof wfmt - o, "%s%s", i ? (char[]){ sep, 0 } : "", is_float ? "%f" : "%li");
+  }
+  snprintf(rfmt, sizeof rfmt, "%s%c", is_float ? "%lf" : "%li", sep);
+  vh_op("records \"%s\" read back one by one with \"%s\"", wfmt, rfmt);
+  var exc = NULL;
+  for (int sink = 0; sink < 2; sink++) {
+    var src; char path[64]; snprintf(path, sizeof path, "c15-rec-%d.tmp", vh.shard);
+    if (sink == 0) { src = new(String); VH_CATCH(print_to_with(src, 0, wfmt, wargs), exc); }
+    else {
+      src = new(File, $S(path), $S("w"));
+      VH_CATCH(print_to_with(src, 0, wfmt, wargs), exc);
+      sclose(src); sopen(src, $S(path), $S("r"));
+    }
+    if (exc) { vh_violation("C15:write:raised", "print_to raised %s", vh_exc_name(exc)); return; }
+    int pos = 0;
+    for (int i = 0; i < n; i++) {
+      var b = is_float ? (var)new(Float) : (var)new(Int);
+      VH_CATCH(pos = scan_from(src, pos, rfmt, b), exc);
+      vh_evals(2);
+      if (exc) { vh_violation("C15:read:raised", "record %d of %d (%s source, format \"%s\"%s) raised %s", i + 1, n, sink ? "File" : "String", rfmt, i + 1 == n ? ", the separator is absent at the end of the input" : "", vh_exc_name(exc)); break; }
+      if (is_float ? (c_float(b) != fv[i]) : (c_int(b) != v[i])) {
+        vh_violation(is_float ? "C15:print-scan:float-value-changed" : "C15:print-scan:int-value-changed", "record %d of %d read back wrong from a %s (format \"%s\")", i + 1, n, sink ? "File" : "String", rfmt);
+        break;
+      }
+    }
+    if (sink == 1) { sclose(src); remove(path); }
+    del(src);
+  }
+  vh_count("record_wise_sequences");
+}
+
 static void case_random(vh_rng* r, long index) {
   int n = (index % 3 == 0) ? 1 : 2 + (int)vh_below(r, MAXV - 1);
   one_roundtrip(r, n, index % 2 == 0);
+  if (index % 4 == 1) { record_wise(r); }
 }
 
 static void fixed_one(int kind, int64_t i, double f, const char* s) {
